@@ -111,7 +111,7 @@ func (hs *clientHandshakeStateTLS13) handshake() error {
 		)
 		if subtle.ConstantTimeCompare(acceptConfirmation, hs.serverHello.random[len(hs.serverHello.random)-8:]) == 1 {
 			hs.hello = hs.echContext.innerHello
-			c.serverName = c.config.ServerName
+			c.serverName = hs.hello.serverName // [uTLS] the name the inner hello carries, not Config.ServerName verbatim (trailing dot, IP literal)
 			hs.transcript = hs.echContext.innerTranscript
 			c.echAccepted = true
 
@@ -290,7 +290,7 @@ func (hs *clientHandshakeStateTLS13) processHelloRetryRequest() error {
 			)
 			if subtle.ConstantTimeCompare(acceptConfirmation, hs.serverHello.encryptedClientHello) == 1 {
 				hello = hs.echContext.innerHello
-				c.serverName = c.config.ServerName
+				c.serverName = hello.serverName // [uTLS] see above
 				isInnerHello = true
 				c.echAccepted = true
 			}
